@@ -62,8 +62,8 @@ CHECKS = {
     ),
     "C14": dict(
         title="Placement roster is what was committed; signatures need REP distinct members",
-        quick=dict(groups=[G("roster", "^TestC14Roster$", 40, 6), G("signatures", "^TestC14Signatures$", 150, 8)]),
-        thorough=dict(groups=[G("roster", "^TestC14Roster$", 400, 8), G("signatures", "^TestC14Signatures$", 3000, 8)]),
+        quick=dict(groups=[G("roster", "^TestC14Roster$", 40, 6), E("roster-boundaries", "^TestC14RosterBoundaries$"), G("signatures", "^TestC14Signatures$", 150, 8)]),
+        thorough=dict(groups=[G("roster", "^TestC14Roster$", 400, 8), E("roster-boundaries", "^TestC14RosterBoundaries$"), G("signatures", "^TestC14Signatures$", 3000, 8)]),
     ),
     "C20": dict(
         title="Epoch-keyed, per-owner and configuration stores return exactly what was put",
@@ -130,9 +130,13 @@ CHECKS = {
                            G("deploy-n1", "^TestC13Deploy$", 2, 1, env=dict(VERIF_C13_N="1"), shrinktime="5s", timeout="20m"),
                            G("deploy-n2", "^TestC13Deploy$", 2, 2, env=dict(VERIF_C13_N="2"), shrinktime="5s", timeout="20m"),
                            G("deploy-n3", "^TestC13Deploy$", 1, 3, env=dict(VERIF_C13_N="3"), shrinktime="5s", timeout="20m"),
-                           G("deploy-n4", "^TestC13Deploy$", 1, 4, env=dict(VERIF_C13_N="4"), shrinktime="5s", timeout="20m")]),
+                           G("deploy-n4", "^TestC13Deploy$", 1, 4, env=dict(VERIF_C13_N="4"), shrinktime="5s", timeout="20m"),
+                           G("deploy-churn", "^TestC13Deploy$", 1, 2, env=dict(VERIF_C13_N="4,5", VERIF_C13_SHAPE="churn"), shrinktime="5s", timeout="20m"),
+                           G("deploy-expiry-churn", "^TestC13Deploy$", 1, 3, env=dict(VERIF_C13_N="4,5,6", VERIF_C13_SHAPE="expiry-churn"), shrinktime="5s", timeout="20m")]),
         thorough=dict(groups=[E("funds-exhaustive", "^TestC13FundsExhaustive$"), E("window-enumerated", "^TestC13WindowEnumerated$"), G("helpers-random", "^TestC13HelpersRandom$", 100000, 4),
                               G("deploy-small", "^TestC13Deploy$", 8, 6, env=dict(VERIF_C13_N="1,2,3,4"), shrinktime="60s", timeout="120m"),
-                              G("deploy-large", "^TestC13Deploy$", 5, 6, env=dict(VERIF_C13_N="5,6,7"), shrinktime="60s", timeout="120m")]),
+                              G("deploy-large", "^TestC13Deploy$", 5, 6, env=dict(VERIF_C13_N="5,6,7"), shrinktime="60s", timeout="120m"),
+                              G("deploy-churn", "^TestC13Deploy$", 4, 3, env=dict(VERIF_C13_N="4,5,6,7", VERIF_C13_SHAPE="churn"), shrinktime="60s", timeout="120m"),
+                              G("deploy-expiry-churn", "^TestC13Deploy$", 4, 4, env=dict(VERIF_C13_N="4,5,6,7", VERIF_C13_SHAPE="expiry-churn"), shrinktime="60s", timeout="120m")]),
     ),
 }
